@@ -181,7 +181,8 @@ def stops : Query → List Int → Bool
   | .after t inc, ys => ys.any (fun i => if inc then decide (i ≥ t) else decide (i > t))
   | .xafter t n inc, ys =>
     (match n with
-     | some c => decide (((ys.filter (fun d => if inc then decide (d ≥ t) else decide (d > t))).length : Int) > c)
+     -- `n > count` is only tested when a matching value arrives: the (max(count,0)+1)-th match
+     | some c => decide ((ys.filter (fun d => if inc then decide (d ≥ t) else decide (d > t))).length > c.toNat)
      | none => false)
   | .between _ b inc, ys => ys.any (fun i => if inc then decide (i > b) else decide (i ≥ b))
 
